@@ -269,6 +269,17 @@ func run(c *hc.Ctx) error {
 			out = "ok " + showID(got)
 			c.Count("dec.ok")
 		}
+		// independent oracle (TDLib layout, harness/c38/ref.go)
+		if p == nil && str != "" {
+			want, ok := refDecode(data)
+			gotS, gotOK := "", derr == nil
+			if gotOK {
+				gotS = showID(got)
+			}
+			if ok != gotOK || (ok && want != gotS) {
+				c.Fail("decode-not-tdlib-layout", "dec "+hc.Hex(data), fmt.Sprintf("DecodeFileID: ok=%v %s; reference layout: ok=%v %s", gotOK, gotS, ok, want))
+			}
+		}
 		lines = append(lines, "dec "+hc.Hex(data))
 		inputs = append(inputs, "dec "+hc.Hex(data))
 		impls = append(impls, out)
